@@ -386,16 +386,18 @@ PROPS = {
                             "definitions across the whole schema is not part of wfP and is what variant_records_defined_twice refutes. NOT proved: acceptance of every value by the serializer and the round trip through read_deser and the container - these involve "
                             "serde's generated code and the schema-aware (de)serializer and are decided by the oracle on generated values of every corpus type. The model covers structs "
                             "with named fields, unit-only enums and enums with data in the default union-of-records representation, with namespace / rename / rename_all / "
-                            "rename_all_fields / doc / alias / skip / default attributes, #[serde(flatten)] fields and #[serde(transparent)] structs (derive_wf_partial excludes definitions "
-                            "with flattened fields); the other enum representations and generics are not modelled: a hand-written corpus covers them with the oracle only"},
+                            "rename_all_fields / doc / alias / skip / default attributes, #[serde(flatten)] fields, #[serde(transparent)] structs, and enums as bare unions (externally tagged and untagged), adjacently tagged (tag + content) and "
+                            "internally tagged records, including the record builder's distinct-field-names assertion (derive_wf_partial excludes definitions with flattened fields and "
+                            "those three representations); generic types are not modelled: a hand-written corpus covers them with the oracle only"},
         ],
         "harness": c17_runs,
         "projection": "exact",
         "nontrivial": lambda l: True,
-        "rule": "a generated corpus of 170 type definitions (tools/gen_c17.py, committed as harness/src/c17_corpus.rs and compiled with /repo's derive macro on every run): structs, "
+        "rule": "a generated corpus of 195 type definitions (tools/gen_c17.py, committed as harness/src/c17_corpus.rs and compiled with /repo's derive macro on every run): structs, "
                 "unit-only enums, enums with unit / newtype / tuple / struct variants; field types from 12 scalars, Option, Vec, HashMap<String, _>, Box and earlier corpus types (biased "
                 "towards mentioning a definition twice), one recursive type, 19 #[serde(transparent)] structs (with and without a skipped second field, with a declared default), 25 structs "
-                "with a #[serde(flatten)] field of an earlier struct type; container attributes namespace / rename / doc / alias / rename_all (8 rules) / rename_all_fields, field "
+                "with a #[serde(flatten)] field of an earlier struct type, 24 enums in the other representations (bare union with and without #[serde(untagged)], tag + content, "
+                "internally tagged with an auxiliary all-defaults struct); container attributes namespace / rename / doc / alias / rename_all (8 rules) / rename_all_fields, field "
                 "attributes rename / skip / default / alias / doc, variant attributes rename / skip / #[default]; every type's description in the model's definition language is "
                 "generated alongside; x generated values per type (boundary pools), written with write_ser, read with read_deser, and through Writer::append_ser / "
                 "Reader::into_deser_iter; plus 24 hand-written types outside the modelled language (oracle only, no model row): #[serde(flatten)] (plain, nested, of a namespaced "
